@@ -8,12 +8,19 @@ import (
 func (p *Pool) Send(ctx context.Context, e Event) {
 	e.ctx = ctx
 
-	p.sendWg.Add(1)
-	defer p.sendWg.Done()
-
+	// A sender registers only while the pool is not cancelled, and Stop cancels
+	// under the write lock: sendWg.Add can never meet a sendWg.Wait that has
+	// already found the counter at zero.
+	p.stopM.RLock()
 	if p.ctx.Err() != nil {
+		p.stopM.RUnlock()
+
 		return
 	}
+
+	p.sendWg.Add(1)
+	p.stopM.RUnlock()
+	defer p.sendWg.Done()
 
 	select {
 	case <-p.ctx.Done():
